@@ -3,54 +3,13 @@
 (* events are Setup / Relax (one per incident edge, from the decorators) /    *)
 (* End (result).  Termination tests, pops and the end of an expansion are     *)
 (* not observable from outside and are silent steps of the specification.     *)
-EXTENDS Search, TraceLib, Frontier
+EXTENDS SearchScn, TraceLib
 
 VARIABLE l
 tvars == <<scn, queue, g, tree, cur, lastE, todo, iters, outcome, pc, reop, l>>
 Ev == Rec[l]
 Devs == TraceDevs
-
-Idle == [nv |-> 0, E |-> <<>>, hd |-> <<>>, src |-> 0, dst |-> 0, dir |-> "fwd", wd |-> 1, wt |-> 0,
-         rd |-> 1, rt |-> 1, sur |-> <<>>, acc |-> "none", delay |-> [i \in 1..8 |-> 0], ok |-> <<>>,
-         bad |-> {}, h |-> <<>>, itl |-> -1, szl |-> -1, init |-> <<0, 0>>, ties |-> TRUE]
-
-ScnOf(ev) ==
-   [nv |-> ev.nv,
-    E |-> [e \in DOMAIN ev.E |-> <<ev.E[e][1], ev.E[e][2], ev.E[e][3],
-                                    IF ev.model = "distance" THEN 0 ELSE ev.E[e][4]>>],   \* no time feature update
-    hd |-> ev.hd, src |-> ev.src, dst |-> ev.dst, dir |-> ev.dir,
-    wd |-> ev.wd, wt |-> ev.wt, rd |-> ev.rd, rt |-> ev.rt, sur |-> ev.sur, acc |-> ev.acc, delay |-> ev.delay,
-    ok |-> [e \in DOMAIN ev.E |-> /\ (ev.allowed_on => \E i \in DOMAIN ev.allowed : ev.allowed[i] = ev.cls[e])
-                                   /\ (ev.veh_on => VehicleOK(ev.vrestr[e], ev.veh))],     \* every model must permit the edge
-    bad |-> {<<ev.bad[i][1], ev.bad[i][2]>> : i \in DOMAIN ev.bad},
-    h |-> ev.h, itl |-> ev.itl, szl |-> ev.szl, init |-> ev.init, ties |-> TRUE]
-
-Abs(x) == IF x < 0 THEN -x ELSE x
 Chk(name, cond) == IF cond THEN TRUE ELSE PrintT(<<"FAILED", name, l>>) /\ FALSE
-
-(* the estimate the search was given must be the specified one:                             *)
-(*   h(v) = weight factor x max(0, wd*rd*gc + wt*rt*gc/vmax), gc = great-circle distance,   *)
-(* and gc itself (the code's haversine, in decimetres) must be the small-angle distance of  *)
-(* the milli-degree lattice coordinates within 1 percent.                                   *)
-VMax(ev) == LET S == {ev.E[e][4] : e \in DOMAIN ev.E} IN CHOOSE x \in S : \A y \in S : y <= x
-HSpec(ev, v) ==   \* in milli-cost
-   LET gc == ev.gc[v]    \* decimetres
-       d10 == ev.wd * ev.rd * gc
-       t10 == IF ev.model = "distance" \/ gc = 0 THEN 0 ELSE (ev.wt * ev.rt * gc) \div VMax(ev)
-       c10 == IF d10 + t10 < 0 THEN 0 ELSE d10 + t10
-   IN (ev.wf * c10) \div 10
-HOK(ev) == \/ ev.dst = 0 /\ \A v \in 1..ev.nv : ev.h[v] = 0
-           \/ ev.dst # 0 /\ ev.est_mode = "script" /\
-                \A v \in 1..ev.nv : Abs(ev.h[v] - ev.wf * ev.wd * ev.rd * ev.hscript[v]) <= 1
-           \/ ev.dst # 0 /\ ev.est_mode = "real" /\
-                \A v \in 1..ev.nv : Abs(ev.h[v] - HSpec(ev, v)) <= (HSpec(ev, v) \div 200) + ev.wf + 10
-GcOK(ev) == ev.dst = 0 \/ ev.est_mode = "script" \/
-            \A v \in 1..ev.nv :
-               LET dx == ev.xy[v][1] - ev.xy[ev.dst][1]
-                   dy == ev.xy[v][2] - ev.xy[ev.dst][2]
-                   want == 1236433 * (dx * dx + dy * dy)         \* (1111.95 dm per milli-degree)^2
-                   got == ev.gc[v] * ev.gc[v]
-               IN Abs(got - want) <= (want \div 50) + 1000
 
 T_Setup == /\ Ev.ev = "Setup" /\ pc = "idle"
            /\ Chk("initial state", Ev.init_obs = Ev.init)
